@@ -41,7 +41,7 @@ type Case struct {
 	Nest      int            `json:"nest,omitempty"` // MultiRowGroup: 0 flat, 1 Multi(Multi(head), tail...), 2 Multi(first, Multi(rest)), 3 Multi(Multi(a), Multi(b))
 }
 
-var kinds = []string{"rowgroup.Rows", "rowgroup.Rows", "Reader", "Pages", "Pages", "MultiRowGroup", "Buffer", "Column.Pages", "ConvertRowReader(forward-only)", "MergeRowGroups.Rows(forward-only)"}
+var kinds = []string{"rowgroup.Rows", "rowgroup.Rows", "Reader", "Pages", "Pages", "MultiRowGroup", "Buffer", "RowBuffer", "Column.Pages", "ConvertRowReader(forward-only)", "MergeRowGroups.Rows(forward-only)"}
 
 // readOnly hides every method of a row reader but ReadRows: ConvertRowReader
 // then provides forward seeks by reading and discarding rows.
@@ -66,7 +66,7 @@ func genCase(t *rapid.T) Case {
 	}
 	c.SkipIndex = rapid.IntRange(0, 3).Draw(t, "skipindex") == 0
 	c.Async = rapid.IntRange(0, 3).Draw(t, "async") == 0
-	if c.Kind != "Buffer" && rapid.IntRange(0, 4).Draw(t, "enc") == 0 {
+	if c.Kind != "Buffer" && c.Kind != "RowBuffer" && rapid.IntRange(0, 4).Draw(t, "enc") == 0 {
 		c.Enc = rapid.IntRange(1, 2).Draw(t, "encmode")
 	}
 	nops := rapid.IntRange(1, 30).Draw(t, "nops")
@@ -183,6 +183,13 @@ func runCase(c Case, o *kit.Obs) *kit.Failure {
 			return nil
 		}
 		rg = b
+	} else if c.Kind == "RowBuffer" {
+		b := parquet.NewRowBuffer[any](pq.BuildSchema(&c.Schema))
+		if _, err := b.WriteRows(prows); err != nil {
+			o.Rejected()
+			return nil
+		}
+		rg = b
 	} else {
 		var wo []parquet.WriterOption
 		var fo []parquet.FileOption
@@ -248,7 +255,7 @@ func runCase(c Case, o *kit.Obs) *kit.Failure {
 		}
 	}
 	switch c.Kind {
-	case "Buffer":
+	case "Buffer", "RowBuffer":
 		r := rg.Rows()
 		defer r.Close()
 		rr = r
@@ -519,7 +526,7 @@ done:
 	o.ClassIf(c.Async, "async")
 	o.ClassIf(c.SkipIndex, "no-page-index")
 	o.ClassIf(maxPages >= 3, "pages>=3")
-	if seeks >= 2 && (backward > 0 || seekSeek > 0) && (maxPages >= 3 || c.Kind == "Buffer") {
+	if seeks >= 2 && (backward > 0 || seekSeek > 0) && (maxPages >= 3 || c.Kind == "Buffer" || c.Kind == "RowBuffer") {
 		o.NonTrivial()
 	}
 	return nil
